@@ -27,10 +27,14 @@ def walk(desc, observe=None, n_strategies=1, strategy_kw=None):
     r = PaperRun()
     r.tr, r.w, r.rng, r.strategies = tr, w, rng, sts
     r.snaps, r.orders, r.closed, r.pool_errors = {}, [], [], []
+    r.hooks = {}
 
     def run_pool(i):
         # the real pool keeps an exception raised by a call in a Future nobody reads: the call just ends there
         fn, a, kw = w.executor.queue[i]
+        if desc["idx"] % 2 == 1 and rng.random() < 0.35 and r.hooks.get("book"):
+            # while the call sleeps its latency on the pool thread, the main loop processes the next update of some market
+            w.on_sleep = lambda secs: r.hooks["book"](rng.choice(r.hooks["open"])) if r.hooks["open"] else None
         try:
             w.executor.run(i)
         except Exception as e:  # noqa: BLE001
@@ -120,6 +124,7 @@ def walk(desc, observe=None, n_strategies=1, strategy_kw=None):
 
         for mid in mids:
             book(mid)
+        r.hooks.update(book=book, open=open_mids)
         budget = desc.get("len", 60)
         while open_mids and budget > 0:
             budget -= 1
